@@ -66,11 +66,27 @@ Qed.
 Lemma session_eta : forall s, {| committed := committed s; working := working s |} = s.
 Proof. now destruct s. Qed.
 
+Definition clean (s : session) : Prop := working s = committed s.
+
+(* The rollback makes the frame structural: WHATEVER a handler did to the working state before it
+   raised, a failed item met in a clean session leaves session and placeholder as they were. *)
+Lemma lift_fail_frame : forall (r : hres) s pl reason s' p',
+    clean s -> lift r s pl = (Fail reason, s', p') -> s' = s /\ p' = pl.
+Proof.
+  unfold lift, clean. intros r s pl reason s' p' Hc H. destruct r as [w c p0|r0 w]; [discriminate|].
+  inversion H; subst. split; [|reflexivity]. destruct s as [cm wk]. simpl in *. now subst.
+Qed.
+
 (* the frame hypothesis of GenericProofs.v, for the concrete handler *)
 Theorem handle_fail_frame : forall h s p it r s' p',
-    handle h s p it = (Fail r, s', p') -> s' = s /\ p' = p.
+    clean s -> handle h s p it = (Fail r, s', p') -> s' = s /\ p' = p.
+Proof. unfold handle. intros. eapply lift_fail_frame; eauto. Qed.
+
+(* ... and the handlers of today never needed it: a failing handler hands back the working state it was given *)
+Theorem handlers_raise_before_they_mutate : forall h s p it r s' p',
+    lift_without_rollback (dispatch h (working s) p (it_body it)) s p = (Fail r, s', p') -> s' = s /\ p' = p.
 Proof.
-  unfold handle, lift. intros h s p it r s' p' H.
+  unfold lift_without_rollback, lift. intros h s p it r s' p' H.
   destruct (dispatch h (working s) p (it_body it)) as [w c pl|reason w] eqn:Hd.
   - discriminate.
   - inversion H; subst. apply dispatch_fail_no_trace in Hd. subst w.
@@ -78,8 +94,6 @@ Proof.
 Qed.
 
 (* ---------- the session never carries unpublished changes between items ---------- *)
-Definition clean (s : session) : Prop := working s = committed s.
-
 Lemma dispatch_no_commit_no_change : forall h w pl b w' p', dispatch h w pl b = HOk w' false p' -> w' = w.
 Proof.
   intros h w pl b w' p' H. destruct b; simpl in H;
@@ -97,7 +111,7 @@ Proof.
   unfold handle, lift, clean. intros h s p it o s' p' Hc H.
   destruct (dispatch h (working s) p (it_body it)) as [w c pl|reason w] eqn:Hd; inversion H; subst; simpl.
   - destruct c; [reflexivity|]. apply dispatch_no_commit_no_change in Hd. now subst.
-  - apply dispatch_fail_no_trace in Hd. now subst.
+  - reflexivity.
 Qed.
 
 Lemma run_clean : forall h c its s p rs s' p', clean s -> run_batch h c s p its = (rs, s', p') -> clean s'.
@@ -188,7 +202,10 @@ Proof.
 Qed.
 
 Lemma failing_keeps_placeholder : forall h s p it r s' p', handle h s p it = (Fail r, s', p') -> p' = p.
-Proof. intros. eapply handle_fail_frame; eauto. Qed.
+Proof.
+  unfold handle, lift. intros h s p it r s' p' H.
+  destruct (dispatch h (working s) p (it_body it)); [discriminate|]. now inversion H.
+Qed.
 
 (* items between the creation and the use: anything that is not itself a creating item *)
 Lemma exec_non_creating_keeps_placeholder : forall h mid s p,
@@ -230,14 +247,14 @@ Definition run_prefix_c := run_prefix session body handle.
 Definition run_continue_all_c := run_continue_all session body handle.
 Definition run_stop_shape_c := run_stop_shape session body handle.
 Definition run_exec_c := run_exec session body handle.
-Definition run_without_failed_c := run_without_failed session body handle handle_fail_frame.
+Definition run_without_failed_c := run_without_failed session body handle clean handle_clean handle_fail_frame.
 Definition request_error_no_effect_c := request_error_no_effect session store body open_session close_session handle.
 Definition request_error_iff_c := request_error_iff session store body open_session close_session handle.
 Definition process_results_c := process_results session store body open_session close_session handle.
 Definition process_without_failed_c :=
-  process_without_failed session store body open_session close_session handle handle_fail_frame.
+  process_without_failed session store body open_session close_session handle clean handle_clean handle_fail_frame open_clean.
 Definition process_all_failed_no_trace_c :=
-  process_all_failed_no_trace session store body open_session close_session handle handle_fail_frame close_open.
+  process_all_failed_no_trace session store body open_session close_session handle clean handle_clean handle_fail_frame open_clean close_open.
 
 (* ---------- items that only read are as removable as failed ones ---------- *)
 Definition read_only (b : body) : bool :=
@@ -245,20 +262,22 @@ Definition read_only (b : body) : bool :=
 Definition keep_writing (it : item body) (r : result) : bool := r_ok r && negb (read_only (it_body it)).
 
 Lemma read_only_frame : forall h s p it o s' p',
-    read_only (it_body it) = true -> handle h s p it = (o, s', p') -> s' = s /\ p' = p.
+    clean s -> read_only (it_body it) = true -> handle h s p it = (o, s', p') -> s' = s /\ p' = p.
 Proof.
-  unfold handle, lift. intros h s p it o s' p' Hro H.
-  destruct (it_body it); try discriminate; simpl in H.
-  - unfold h_get in H. destruct (fetch (h_user h) tgt p (working s)); inversion H; subst;
-      (split; [apply session_eta|reflexivity]).
-  - destruct (ver_ge (h_ver h) minver); inversion H; subst; (split; [apply session_eta|reflexivity]).
-  - destruct ok; inversion H; subst; (split; [apply session_eta|reflexivity]).
+  intros h s p it o s' p' Hc Hro H. destruct o as [|reason].
+  - unfold handle, lift in H.
+    destruct (it_body it); try discriminate; simpl in H.
+    + unfold h_get in H. destruct (fetch (h_user h) tgt p (working s)); inversion H; subst;
+        (split; [apply session_eta|reflexivity]).
+    + destruct (ver_ge (h_ver h) minver); inversion H; subst; (split; [apply session_eta|reflexivity]).
+    + destruct ok; inversion H; subst; (split; [apply session_eta|reflexivity]).
+  - eapply handle_fail_frame; eauto.
 Qed.
 
 Lemma dropped_frame_c : forall h s p it o s' p',
-    handle h s p it = (o, s', p') -> keep_writing it (mk_result body it o) = false -> s' = s /\ p' = p.
+    clean s -> handle h s p it = (o, s', p') -> keep_writing it (mk_result body it o) = false -> s' = s /\ p' = p.
 Proof.
-  unfold keep_writing. intros h s p it o s' p' Hh Hk. simpl in Hk.
+  unfold keep_writing. intros h s p it o s' p' Hc Hh Hk. simpl in Hk.
   apply andb_false_iff in Hk. destruct Hk as [Hk|Hk].
   - destruct o; [discriminate|]. eapply handle_fail_frame; eauto.
   - apply negb_false_iff in Hk. eapply read_only_frame; eauto.
@@ -268,7 +287,7 @@ Lemma kept_ok_c : forall (it : item body) o, keep_writing it (mk_result body it 
 Proof. unfold keep_writing. intros it o H. simpl in H. apply andb_true_iff in H. tauto. Qed.
 
 Definition process_writing_only_c :=
-  process_kept session store body open_session close_session handle keep_writing dropped_frame_c kept_ok_c.
+  process_kept session store body open_session close_session handle clean handle_clean open_clean keep_writing dropped_frame_c kept_ok_c.
 
 (* the store after a request is the published state of a clean session *)
 Lemma process_clean : forall st h its rs st',
@@ -292,14 +311,23 @@ Definition demo_items : list (item body) :=
     Build_item 1 (Some [2]) (BCreate true false true true true true [] [] None) ].
 
 Definition process_late := process_request session store body open_session close_session handle_late.
+Definition process_late_without_rollback :=
+  process_request session store body open_session close_session handle_late_without_rollback.
 
-(* with a guard placed after the mutation and no rollback, the failed Activate of a
-   deactivated key is published by the commit of the Create that follows it *)
+(* with a guard placed after the mutation and NO rollback (the batch loop before 52cb625), the failed
+   Activate of a deactivated key is published by the commit of the Create that follows it *)
 Lemma late_guard_leaves_trace :
-  exists rs st', process_late demo_store demo_header demo_items = (inr rs, st') /\
+  exists rs st', process_late_without_rollback demo_store demo_header demo_items = (inr rs, st') /\
                  map r_ok rs = [false; true] /\
                  option_map o_state (lookup 1 st') = Some S_ACTIVE /\
                  option_map o_state (lookup 1 demo_store) = Some S_DEACT.
+Proof. eexists. eexists. vm_compute. repeat split. Qed.
+
+(* the same late guard under today's batch loop: the rollback discards the change *)
+Lemma late_guard_rolled_back :
+  exists rs st', process_late demo_store demo_header demo_items = (inr rs, st') /\
+                 map r_ok rs = [false; true] /\
+                 option_map o_state (lookup 1 st') = Some S_DEACT.
 Proof. eexists. eexists. vm_compute. repeat split. Qed.
 
 (* the faithful handlers on the same input: the failed item leaves the key alone *)
